@@ -1,4 +1,10 @@
 ---- MODULE MirrorMC ----
 EXTENDS Mirror
 MCDst == <<127, 0, 0, 1>>
+AllLens == 0..MaxUDP
+(* max-udp-size 65535: what an IPv4 packet can carry at all is 65535 - 28 octets; the lengths around the powers of two, *)
+(* around 2^15 - 28 and 2^16 - 28 (the 16-bit length fields of both headers), and some in between                     *)
+MaxPayload == 65535 - 28
+BigLens == {0, 1, 1472, 1473, 8972, 16383, 16384, 16385, 32738, 32739, 32740, 32741, 32766, 32767, 32768, 32769, 32796,
+            40000, 50000, 65000, MaxPayload - 2, MaxPayload - 1, MaxPayload}
 ====
